@@ -20,6 +20,6 @@ def run(tier, seed):
                    cfgs=["commonmark", "js-default"], wrapped=False)
     rep.explanation = ("Mixed. Deductive (when the vocabulary back end ran): each rule function creates only token types of its declared vocabulary (type literals at push/Token sites read "
                        "from the source) and html tokens are guarded by options.html. Bounded: vocabulary and conservativity monitors over the line universe and rule subsets.")
-    rep.trusted_base = STD_TRUST
-    rep.assumptions = ["'a rule that returns False without effects is a no-op in a dispatch loop' (composition, not machine-checked)"]
+    rep.trusted_base += STD_TRUST
+    rep.assumptions += ["'a rule that returns False without effects is a no-op in a dispatch loop' (composition, not machine-checked)"]
     return rep
